@@ -26,6 +26,7 @@ import (
 	"net"
 	"net/url"
 	"sync"
+	"sync/atomic"
 
 	"github.com/google/martian/v3/log"
 	"golang.org/x/net/http2"
@@ -110,7 +111,11 @@ func (c *Config) Proxy(closing chan bool, cc io.ReadWriter, url *url.URL) error 
 		return fmt.Errorf("initializing h2 with %v: %w", url, err)
 	}
 
-	cf, sf := http2.NewFramer(cc, cc), http2.NewFramer(sc, sc)
+	// Once one side has ended in good order nothing can be delivered to it any more, and what
+	// the other side still addresses to it (a PING, say) must not end the session while the
+	// frames that side is owed are being drained: its writer then swallows what it is given.
+	cw, sw := &endableWriter{w: cc}, &endableWriter{w: sc}
+	cf, sf := http2.NewFramer(cw, cc), http2.NewFramer(sw, sc)
 	// The framer's frame-order check rejects a CONTINUATION frame that follows a
 	// PUSH_PROMISE, so the relays check the order of header block fragments
 	// themselves (see processFrame).
@@ -157,6 +162,7 @@ func (c *Config) Proxy(closing chan bool, cc io.ReadWriter, url *url.URL) error 
 			return
 		}
 		// The client has ended in good order: what it sent is still delivered to the server.
+		cw.end()
 		cToS.drain(stop, drainTimeout)
 	}()
 	go func() { // Forwards frames from server to client.
@@ -167,11 +173,33 @@ func (c *Config) Proxy(closing chan bool, cc io.ReadWriter, url *url.URL) error 
 			return
 		}
 		// The server has ended in good order: what it sent is still delivered to the client.
+		sw.end()
 		sToC.drain(stop, drainTimeout)
 	}()
 	wg.Wait()
 	close(readersDone)
 	return nil
+}
+
+// endableWriter writes to w until end is called; from then on it swallows what it is given.
+type endableWriter struct {
+	w     io.Writer
+	ended int32
+}
+
+func (e *endableWriter) end() {
+	atomic.StoreInt32(&e.ended, 1)
+}
+
+func (e *endableWriter) Write(p []byte) (int, error) {
+	if atomic.LoadInt32(&e.ended) != 0 {
+		return len(p), nil
+	}
+	n, err := e.w.Write(p)
+	if err != nil && atomic.LoadInt32(&e.ended) != 0 {
+		return len(p), nil
+	}
+	return n, err
 }
 
 // dialTLS connects to the server and completes the TLS handshake, or gives up when ctx is
